@@ -170,6 +170,10 @@ Definition merge_data (child parent : frame) (conds : list (ustr * ustr)) : resu
   | [] => Err EOther
   | _ =>
       if negb (join_cols_ok child parent conds) then Err EKey else
+      (* DataFrame.join / merge refuse (or rename) columns present on both sides: a frame that already went through a
+         join carries parent_ columns *)
+      if existsb (fun c => existsb (fun p => existsb (fun kv => match rget (fst kv) c with Some _ => true | None => false end)
+                                                      (add_prefix parent_prefix p)) parent) child then Err EValue else
       Ok (flat_map (fun c => flat_map (fun p => if forallb (cond_holds c p) conds then [c ++ add_prefix parent_prefix p] else [])
                                       parent) child)
   end.
